@@ -25,7 +25,7 @@ func init() {
 	register(&run.Check{
 		ID:    "C14",
 		Level: "model_checking",
-		Rule: "(a) no panic: every byte string <=4 (thorough 5) over B and every fragment sequence <=2 (thorough 3) over F, through all four entry points, against an 'everything on' policy (every default CSS handler globally, a rewriter that dereferences its argument, data URIs, data attributes, element patterns, every link / crossorigin / sandbox option) and UGC; " +
+		Rule: "(a) no panic: every byte string <=4 (thorough 5) over B, every fragment sequence <=2 (thorough 3) over F, and every sequence <=2 over the attribute / URL (<=3) / style-declaration alphabets of the other checks in their contexts, through all four entry points, against an 'everything on' policy (every default CSS handler globally, a rewriter that dereferences its argument, data URIs, data attributes, element patterns, every link / crossorigin / sandbox option) and UGC; " +
 			"(b) promptness by step-bounded execution: the overlay counts one step per statement of package bluemonday and per function entry / loop iteration of package css; for every default CSS handler x up to 12 tokens of its own vocabulary x separator {' ', ',', '/', ' / '} x terminator {none, a rejected token} x size n in {1,2,4,8,16,24,32,48}: handler(n-fold value) must finish within K*(len+16)^3 steps; " +
 			"likewise 22 size-parameterised HTML families through Sanitize (nested dropped / skipped / attribute-less elements, n attributes, n rel tokens, n style declarations, n CSS escapes, n-token shorthand values for 14 shorthand properties, n data- prefixes, n bare < and &, ...) for n up to 256. Exceeding the budget aborts the call (sentinel panic) and is the violation; sizes are visited in increasing order. No wall-clock oracle. " +
 			"non-trivial = distinct (family, size) executions with n >= 4.",
@@ -199,7 +199,26 @@ func runC14(c *run.Ctx) {
 	BytesS(c, "c14b", byteAlpha, 0, nb, entry)
 	extra := []string{`<img src=" http://e.x/a.png&#10;">`, `<img src="http://e.x/a b">`, `<a href=" http://e.x/ ">`, `<p style="color: \">`, `<p style="grid: auto auto auto @">`,
 		`<iframe src="%zz">`, `<img src="data:image/png;base64,iVBORw0KGgo=">`, `<img src="data:image/png;base64,iVBOR w0K&#10;Ggo=">`, `<source src="//e.x/\x00">`, `<my-x src="http://[::1">`}
+	extra = append(extra, `<a href="http://e.x/" rel="nofollowed noopenerx" target=_blank>`, `<a href=x rel="noreferrer-when-downgrade nofollow-ish">`, `<area href=x rel="no">`,
+		`<p style="transform: q q q q">`, `<iframe sandbox="allow-formsx allow">`, `<b data-=1 data-x>`, `<img crossorigin>`)
 	SeqsS(c, "c14f", append(fragAll(), extra...), 0, kf, func(in []byte, _ []int) { entry(in) })
+	// the special alphabets of the other checks, in their contexts: attribute lists on link / media / generic elements, URL strings, style declarations
+	la := append(append(append([]string{}, linkAttrAlphabet()...), c02Attrs...), c12MediaAttrs...)
+	la = append(la, c12FrameAttrs...)
+	for _, el := range []string{"a", "img", "iframe", "my-x", "span"} {
+		SeqsS(c, "c14attrs"+el, la, 0, 2, func(attrs []byte, _ []int) { entry([]byte("<" + el + string(attrs) + ">t</" + el + ">")) })
+	}
+	SeqsS(c, "c14url", urlFrags, 0, 3, func(u []byte, _ []int) {
+		q := htmlAttrQuote(string(u))
+		entry([]byte("<a href=" + q + "><img src=" + q + "><q cite=" + q + ">"))
+	})
+	dtexts := make([]string, len(c10Decls))
+	for i, d := range c10Decls {
+		dtexts[i] = d.text + "; "
+	}
+	SeqsS(c, "c14style", dtexts, 0, 2, func(st []byte, _ []int) {
+		entry([]byte("<p style=" + htmlAttrQuote(strings.ReplaceAll(string(st), "&", "&amp;")) + ">t</p>"))
+	})
 
 	// ---- (b) promptness ----------------------------------------------------------------
 	if !hooks.Available {
